@@ -427,7 +427,8 @@ def fill_sections(ch, tier, m, sweep_types=None, sweep_ptypes=None):
         if have_str:
             types[shstr] = 3
         strtabs = [i for i, t in enumerate(types) if t == 3]
-        symcand = [i for i, t in enumerate(types) if t in (2, 11)]
+        # symbol tables need a string table to be constructible; without one they are downgraded below, so nothing may link to them
+        symcand = [i for i, t in enumerate(types) if t in (2, 11)] if strtabs else []
         for i, t in enumerate(types):
             if i == 0:
                 secs.append({'name': '', 'sh_type': 0})
